@@ -95,15 +95,37 @@ class EnumMember:
         return False
 
     def __hash__(self):
+        if any(b.split(".")[-1] == "IntEnum" for b in self.cls.bases):
+            return hash(self.value)
         return hash((self.cls.name, self.value))
 
     def __repr__(self):
         return f"{self.cls.short}.{self.name}"
 
+    def __int__(self):
+        return int(self.value)
+
+    def __index__(self):
+        return int(self.value)
+
+    def interp_getattr(self, attr):
+        if attr == "name":
+            return self.name
+        if attr == "value":
+            return self.value
+        raise PyRaise(f"AttributeError: {attr}")
+
 
 class ClassRef:
     def __init__(self, cls):
         self.cls = cls
+
+    def __iter__(self):
+        if not any(b.split(".")[-1] in ("IntEnum", "Enum") for b in self.cls.bases):
+            raise Undecided(f"iteration over class {self.cls.name}")
+        for nm, ex in self.cls.consts.items():
+            if isinstance(ex, ast.Constant):
+                yield EnumMember(self.cls, nm, ex.value)
 
 
 class BoundMethod:
@@ -127,6 +149,34 @@ class Native:
 
     def __call__(self, args, kwargs):
         return self.fn(args, kwargs)
+
+
+class Closure:
+    """a lambda with its defining environment"""
+
+    def __init__(self, interp, node, env):
+        self.interp, self.node, self.env = interp, node, env
+
+    def __call__(self, args, kwargs):
+        a = self.node.args
+        params = [p.arg for p in a.posonlyargs + a.args]
+        env = dict(self.env)
+        if len(args) > len(params) and a.vararg is None:
+            raise Undecided("lambda arity")
+        for p, v in zip(params, args):
+            env[p] = v
+        if a.vararg is not None:
+            env[a.vararg.arg] = tuple(args[len(params):])
+        dstart = len(params) - len(a.defaults)
+        for i, p in enumerate(params):
+            if p not in env or i >= len(args):
+                if p in kwargs:
+                    env[p] = kwargs[p]
+                elif i >= dstart and i >= len(args):
+                    env[p] = self.interp.eval(a.defaults[i - dstart], self.env)
+                elif i >= len(args):
+                    raise Undecided(f"lambda missing argument {p}")
+        return self.interp.eval(self.node.body, env)
 
 
 class ModuleRef:
@@ -182,14 +232,31 @@ class Interp:
             env[a.kwarg.arg] = kwargs
         elif kwargs:
             raise Undecided(f"unexpected kwargs {list(kwargs)} for {fi.qual}")
+        is_gen = _is_generator(fi.node)
+        if is_gen:
+            env["__yield__"] = []
         self.depth += 1
         try:
             self.exec_block(fi.node.body, env)
         except _Return as r:
-            return r.value
+            return env["__yield__"] if is_gen else r.value
         finally:
             self.depth -= 1
-        return None
+        return env["__yield__"] if is_gen else None
+
+    def class_env(self, cls):
+        """namespace of a class body, by executing its statements in order (assignments, loops,
+        conditionals, calls such as D.update(...)); function definitions are skipped"""
+        cache = self.__dict__.setdefault("_class_envs", {})
+        if cls.name in cache:
+            return cache[cls.name]
+        env = {"__class__": None, "__mod__": cls.mod}
+        for st in cls.node.body:
+            if isinstance(st, (ast.FunctionDef, ast.AsyncFunctionDef, ast.ClassDef)):
+                continue
+            self.exec(st, env)
+        cache[cls.name] = env
+        return env
 
     # ---- statements -------------------------------------------------------
     def exec_block(self, stmts, env):
@@ -205,6 +272,12 @@ class Interp:
             if isinstance(v, ast.Constant):
                 return
             if isinstance(v, ast.Call) and is_logging_call(v):
+                return
+            if isinstance(v, ast.Yield):
+                env["__yield__"].append(self.eval(v.value, env) if v.value is not None else None)
+                return
+            if isinstance(v, ast.YieldFrom):
+                env["__yield__"].extend(list(self.eval(v.value, env)))
                 return
             self.eval(v, env)
             return
@@ -299,6 +372,18 @@ class Interp:
             return
         if isinstance(st, (ast.Global, ast.Nonlocal, ast.Import, ast.ImportFrom)):
             return
+        if isinstance(st, ast.Delete):
+            for t in st.targets:
+                if isinstance(t, ast.Name):
+                    env.pop(t.id, None)
+                elif isinstance(t, ast.Subscript):
+                    try:
+                        del self.eval(t.value, env)[self.eval(t.slice, env)]
+                    except Exception as e:
+                        raise Undecided(f"del: {e}")
+                else:
+                    raise Undecided("del target")
+            return
         raise Undecided(f"unsupported statement {type(st).__name__} line {st.lineno}")
 
     def assign(self, target, val, env):
@@ -371,6 +456,8 @@ class Interp:
                 return self.repo.fold(mod.consts[e.id], mod)
             except Unfoldable:
                 return self.eval(mod.consts[e.id], {"__mod__": mod, "__class__": None})
+        if mod is not None and e.id in getattr(mod, "functions", {}):
+            return BoundMethod(None, mod.functions[e.id])
         if mod is not None and e.id in mod.imports:
             tgt = self.repo._import_target(mod, e.id)
             if tgt is not None:
@@ -435,12 +522,22 @@ class Interp:
             raise Undecided(f"{base.cls.name}.{attr}")
         if isinstance(base, ModuleRef):
             return Builtin(f"{base.name}.{attr}")
-        if isinstance(base, (str, bytes, list, tuple, dict)):
+        if isinstance(base, (str, bytes, list, tuple, dict, set, frozenset, bytearray)):
             return PyMethod(base, attr)
+        if type(base).__module__ == "re" or type(base).__name__ in ("Pattern", "Match"):
+            v = getattr(base, attr, None)
+            if v is None and not hasattr(base, attr):
+                raise PyRaise(f"AttributeError: {attr}", node)
+            return PyMethod(base, attr) if callable(v) else v
         if hasattr(base, "interp_getattr"):
             return base.interp_getattr(attr)
         if isinstance(base, Opaque):
             return Opaque(f"{base.name}.{attr}")
+        if base is None or isinstance(base, (bool, int, float)):
+            if hasattr(base, attr):
+                v = getattr(base, attr)
+                return PyMethod(base, attr) if callable(v) else v
+            raise PyRaise(f"AttributeError: '{type(base).__name__}' object has no attribute '{attr}'", node)
         raise Undecided(f"attribute {attr} of {type(base).__name__}")
 
     def e_Call(self, e, env):
@@ -493,7 +590,7 @@ class Interp:
             return obj
         if isinstance(callee, PyMethod):
             return callee(*args, **kwargs)
-        if isinstance(callee, Native):
+        if isinstance(callee, (Native, Closure)):
             return callee(args, kwargs)
         if isinstance(callee, Builtin):
             return callee(self, args, kwargs, node)
@@ -670,13 +767,29 @@ class Interp:
         return self.eval(e.value, env)
 
     def e_Lambda(self, e, env):
-        return Opaque("lambda")
+        return Closure(self, e, dict(env))
 
     def e_ListComp(self, e, env):
         return self._comp(e, env, list)
 
     def e_GeneratorExp(self, e, env):
         return self._comp(e, env, list)
+
+    def e_SetComp(self, e, env):
+        return self._comp(e, env, set)
+
+    def e_Set(self, e, env):
+        return {self.eval(x, env) for x in e.elts}
+
+    def e_DictComp(self, e, env):
+        pair = ast.Tuple(elts=[e.key, e.value], ctx=ast.Load())
+        fake = ast.ListComp(elt=pair, generators=e.generators)
+        return dict(self._comp(fake, env, list))
+
+    def e_NamedExpr(self, e, env):
+        v = self.eval(e.value, env)
+        self.assign(e.target, v, env)
+        return v
 
     def _comp(self, e, env, ctor):
         out = []
@@ -696,9 +809,40 @@ class Interp:
         return ctor(out)
 
 
+def _is_generator(fnode):
+    stack = list(fnode.body)
+    while stack:
+        n = stack.pop()
+        if isinstance(n, (ast.Yield, ast.YieldFrom)):
+            return True
+        if isinstance(n, (ast.FunctionDef, ast.AsyncFunctionDef, ast.Lambda, ast.ClassDef)):
+            continue
+        stack.extend(ast.iter_child_nodes(n))
+    return False
+
+
 def _load(target):
     t = ast.parse(ast.unparse(target), mode="eval").body
     return t
+
+
+class _Iter:
+    """explicit iterator state for iter()/next()"""
+
+    def __init__(self, items):
+        self.items = list(items)
+        self.i = 0
+
+    def next(self):
+        if self.i >= len(self.items):
+            raise StopIteration
+        self.i += 1
+        return self.items[self.i - 1]
+
+    def __iter__(self):
+        while self.i < len(self.items):
+            self.i += 1
+            yield self.items[self.i - 1]
 
 
 class PyMethod:
@@ -748,6 +892,8 @@ BUILTINS = {
     "int", "float", "len", "isinstance", "max", "min", "str", "bool", "range", "list",
     "tuple", "dict", "bytes", "abs", "enumerate", "zip", "sorted", "hex", "round", "set",
     "Exception", "ValueError", "RuntimeError", "OverflowError", "getattr", "setattr", "hasattr", "callable", "dir",
+    "any", "all", "next", "iter", "frozenset", "sum", "reversed", "map", "filter", "print", "divmod", "bytearray", "repr", "ord", "chr",
+    "TypeError", "KeyError", "IndexError", "AttributeError", "NotImplementedError", "StopIteration",
 }
 
 
@@ -797,7 +943,7 @@ class Builtin:
         if n == "dir":
             return _dir_of(interp, args[0])
         if n == "callable":
-            return isinstance(args[0], (BoundMethod, Native, Builtin, ClassRef, PyMethod))
+            return isinstance(args[0], (BoundMethod, Native, Builtin, ClassRef, PyMethod, Closure))
         if n == "getattr":
             if not isinstance(args[1], str):
                 raise Undecided("getattr with non-constant name")
@@ -821,13 +967,60 @@ class Builtin:
             args[0].attrs[args[1]] = args[2]
             interp.trace.append(("setattr", args[0], args[1], args[2]))
             return None
+        if n in ("any", "all"):
+            vals = [interp.truth(v) for v in list(args[0])]
+            return any(vals) if n == "any" else all(vals)
+        if n == "next":
+            it = args[0]
+            if isinstance(it, _Iter):
+                try:
+                    return it.next()
+                except StopIteration:
+                    if len(args) > 1:
+                        return args[1]
+                    raise PyRaise("StopIteration", node)
+            seq = list(it)
+            if seq:
+                return seq[0]
+            if len(args) > 1:
+                return args[1]
+            raise PyRaise("StopIteration", node)
+        if n == "iter":
+            return _Iter(list(args[0]))
+        if n in ("frozenset", "sum", "divmod", "bytearray", "repr", "ord", "chr"):
+            if any(isinstance(a, Opaque) for a in args):
+                return Opaque(n)
+            import builtins as _b
+            try:
+                return getattr(_b, n)(*args, **kwargs)
+            except Exception as e:
+                raise Undecided(f"builtin {n}: {e}")
+        if n == "reversed":
+            return list(reversed(list(args[0])))
+        if n == "map":
+            return [interp.apply(args[0], [v], {}, node) for v in list(args[1])]
+        if n == "filter":
+            return [v for v in list(args[1]) if interp.truth(v if args[0] is None else interp.apply(args[0], [v], {}, node))]
+        if n == "print":
+            return None
+        if n in ("re.compile", "re.search", "re.match", "re.fullmatch", "re.findall", "re.sub", "re.split", "re.escape"):
+            if any(not isinstance(a, (str, bytes, int)) for a in args) or any(not isinstance(a, (str, bytes, int)) for a in kwargs.values()):
+                raise Undecided(f"{n} on non-constant arguments")
+            import re as _re
+            try:
+                return getattr(_re, n[3:])(*args, **kwargs)
+            except _re.error as e:
+                raise PyRaise(f"re.error: {e}", node)
+        if n.startswith("re.") and n[3:] in ("DOTALL", "IGNORECASE", "MULTILINE", "VERBOSE", "ASCII", "S", "I", "M", "X", "A"):
+            import re as _re
+            return int(getattr(_re, n[3:]))
         if n == "range":
             return range(*args)
         if n == "enumerate":
             return list(enumerate(*args))
         if n == "zip":
             return list(zip(*args))
-        if n in ("Exception", "ValueError", "RuntimeError", "OverflowError"):
+        if n in ("Exception", "ValueError", "RuntimeError", "OverflowError", "TypeError", "KeyError", "IndexError", "AttributeError", "NotImplementedError", "StopIteration"):
             return Opaque(n)
         if n == "len" and args and hasattr(args[0], "length"):
             return args[0].length()
